@@ -178,6 +178,24 @@ def gen_direct(rng, shape=None, many=False):
     }
 
 
+def gen_used(rng, shape=None):
+    """a USED cost volume: the dataset has already been through `to_disp` once (it carries `disp_indices`, bands, …) and
+    its costs were rewritten in place since (another NaN pattern, other winners) — or left as they were.  The second
+    call is judged like a first one: the statement quantifies over every cost volume."""
+    case = gen_direct(rng, shape)
+    rows, cols, nd = case["rows"], case["cols"], len(case["disps"])
+    if rng.random() < 0.25:
+        case["prior_cost"] = case["cost"]
+    else:
+        prior = np.array([[[rng.randrange(0, 4) for _ in range(nd)] for _ in range(cols)] for _ in range(rows)], dtype=float)
+        m = np.array([[[rng.random() < 0.25 for _ in range(nd)] for _ in range(cols)] for _ in range(rows)])
+        prior[m] = np.nan
+        if rng.random() < 0.3:
+            prior[rng.randrange(rows), rng.randrange(cols), :] = np.nan
+        case["prior_cost"] = enc_arr(prior)
+    return case
+
+
 def enc_invalid(v):
     if isinstance(v, float) and v != v:
         return "nan-float"
@@ -237,7 +255,7 @@ def pixel_trigger(is_max, fail, rows, cols):
 
 
 def eval_side(ctx, report, case, label, cost_before, disps, is_max, lo, hi, inv_cfg, snap_before, snap_after, obs,
-              compare_model=True):
+              compare_model=True, tag=""):
     """spec on the implementation + (optionally) model == implementation, for one disparity dataset"""
     rows, cols, _ = cost_before.shape
     inv = invalid_value(inv_cfg)
@@ -265,7 +283,7 @@ def eval_side(ctx, report, case, label, cost_before, disps, is_max, lo, hi, inv_
             detail = "pixel beyond the first processing block; "
         else:
             detail = ""
-        report.fail(clause, pixel_trigger(is_max, f, rows, cols), case, {"pixel": [f["r"], f["c"]], "got": f["out"],
+        report.fail(clause, pixel_trigger(is_max, f, rows, cols) + tag, case, {"pixel": [f["r"], f["c"]], "got": f["out"],
                     "expected": f["expected"], "costs": f["costs"], "side": label},
                     detail + f"clauses false at this pixel: {f['clauses']}")
     if res["with_cost"]:
@@ -329,20 +347,31 @@ def run_direct(ctx, report, case, label="direct", compare_model=True):
     conf = None if case.get("conf") is None else dec_arr(case["conf"])
     is_max = case["is_max"]
     inv_cfg = dec_invalid(case["invalid_cfg"])
-    cv = wta.make_cv(cost, disps, "max" if is_max else "min", flags, conf, case.get("indicators"),
-                     case.get("row0", 0), case.get("col0", 0))
+    used = case.get("prior_cost") is not None
+    tag = "_used_cost_volume" if used else ""
+    cv = wta.make_cv(dec_arr(case["prior_cost"]) if used else cost, disps, "max" if is_max else "min", flags, conf,
+                     case.get("indicators"), case.get("row0", 0), case.get("col0", 0))
+    if used:
+        # the dataset goes through the step once, then its costs are rewritten in place (same shape): the call under
+        # test is the SECOND one, on the same dataset object
+        report.count("used_cost_volume_costs_unchanged" if case["prior_cost"] == case["cost"] else "used_cost_volume_costs_changed")
+        try:
+            wta.to_disp(cv, inv_cfg)
+        except Exception:  # pylint: disable=broad-except
+            pass  # the first call is not the one under test (a fresh volume with these costs is judged elsewhere)
+        cv["cost_volume"].data[...] = np.array(cost, dtype=np.float32)
     before = wta.snapshot(cv)
     try:
         out, _ = wta.to_disp(cv, inv_cfg)
     except Exception as exc:  # pylint: disable=broad-except
-        where = "block0" if case["rows"] <= BLOCK and case["cols"] <= BLOCK else "beyond_block0"
+        where = ("block0" if case["rows"] <= BLOCK and case["cols"] <= BLOCK else "beyond_block0") + tag
         report.fail("is_sample", f"raises_{type(exc).__name__}_{where}", case, {"exception": f"{type(exc).__name__}: {exc}"},
                     "the disparity step raised instead of producing a disparity map")
         return {"with_cost": 1, "all_nan": 0, "ties": 0}
     after = wta.snapshot(cv)
     obs = wta.observe(out)
     res = eval_side(ctx, report, case, label, before["cost_volume"].astype(np.float64), disps, is_max, lo, hi, inv_cfg,
-                    before, after, obs, compare_model)
+                    before, after, obs, compare_model, tag)
     rows, cols = case["rows"], case["cols"]
     if rows > BLOCK or cols > BLOCK:
         crop_independent(report, case, cost, disps, is_max, flags, inv_cfg, obs["disparity_map"])
@@ -390,7 +419,8 @@ def check_case(ctx, report, case, label, compare_model=True, shrink_fail=True):
 def _check_case(ctx, report, case, label, compare_model=True):
     if case["kind"] == "direct":
         res = run_direct(ctx, report, case, label, compare_model)
-        key = ("direct", json.dumps([case["rows"], case["cols"], case["is_max"], case["invalid_cfg"], case["disps"], case["cost"]]))
+        key = ("direct", json.dumps([case["rows"], case["cols"], case["is_max"], case["invalid_cfg"], case["disps"], case["cost"],
+                                     case.get("prior_cost")]))
         sample = {"kind": "direct", "shape": [case["rows"], case["cols"], len(case["disps"])], "is_max": case["is_max"],
                   "invalid": case["invalid_cfg"], "pixels_with_cost": res["with_cost"], "all_nan": res["all_nan"], "ties": res["ties"]}
     else:
@@ -424,7 +454,8 @@ def run(ctx, report, status):
         "direct: random cost volumes (small shapes + shapes straddling the 100-pixel blocks), sub-pixel disparity coordinates, "
         "small integer/quarter costs with planted ties, NaN outside random per-pixel intervals plus NaN rows/columns/planes, "
         "min and max measures, invalid_disparity in {default,-9999,0,'NaN',nan,7.5,a sample value,...}, random flags and 0-2 "
-        "confidence bands; machine: real matching_cost+disparity on 3..6 x 6..12 pairs with per-pixel grids, 4 measures, "
+        "confidence bands; used: the same volumes after the dataset has already been through to_disp once and its costs were "
+        "rewritten in place (or left unchanged), the second call judged like a first one; machine: real matching_cost+disparity on 3..6 x 6..12 pairs with per-pixel grids, 4 measures, "
         "subpix 1/2/4, left and right. Non-trivial = at least one pixel with a computable cost; distinct by full input."
     )
     for name, case in core.load_corpus(PROP):
@@ -443,6 +474,9 @@ def run(ctx, report, status):
     for _ in range(ctx.n(6, 60)):
         check_case(ctx, report, gen_direct(rng, many=True), "direct")
         report.count("direct_many_disparities")
+    for k in range(ctx.n(40, 1500)):
+        check_case(ctx, report, gen_used(rng, (2, 101) if k == 0 else None), "direct.used")
+        report.count("direct_used_cost_volume")
     shapes = list(BOUNDARY_SHAPES_QUICK)
     if ctx.thorough:
         shapes += BOUNDARY_SHAPES_THOROUGH
@@ -526,6 +560,10 @@ def search(ctx, report, status):
         if sub.failures:
             return sub.failures[0]
     for _ in range(60):
+        check_case(ctx, sub, gen_used(rng), "search", compare_model=False)
+        if sub.failures:
+            return sub.failures[0]
+    for _ in range(60):
         check_case(ctx, sub, gen_machine(rng), "search", compare_model=False)
         if sub.failures:
             return sub.failures[0]
@@ -541,7 +579,7 @@ def shrink(ctx, failure):
     for (r0, r1, c0, c1) in ((r, r + 1, c, c + 1), (r, r + 1, 0, case["cols"]), (0, case["rows"], c, c + 1)):
         small = dict(case)
         small["rows"], small["cols"] = r1 - r0, c1 - c0
-        for k in ("cost", "lo", "hi", "flags", "conf"):
+        for k in ("cost", "prior_cost", "lo", "hi", "flags", "conf"):
             if case.get(k) is not None:
                 small[k] = [row[c0:c1] for row in case[k][r0:r1]]
         sub = core.Report(PROP, ctx.tier, ctx.seed)
